@@ -455,6 +455,12 @@ PROPS["C11"] = {
          "trace_consts": lambda: {"MaxDials": 1000, "FixAbortLeak": "TRUE", "KeepResyncOnAccept": "TRUE", "SyncingChoices": "{{}}",
                                   "DialReasons": "{}", "Yielder": _LIVE["yielder"]},
          "trace_invariants": LIVE_INV, "tv_timeout": 3000, "timeout": 7200},
+        # thorough: complete nodes on the loopback network, every call of the slot transition functions (hook H10) validated
+        # against the node-local rules (LiveNodeTrace, extension X05).  The verdict does not depend on timing; if the local
+        # network is not usable the drive records nothing and says so in the evidence instead of failing the check.
+        {"name": "liveslots", "custom": lambda w, t, s, p: _live_slot_traces(w, t, s, p, optional=True, n=120), "cmd": "-", "args": {},
+         "trace_module": "LiveNodeTrace", "trace_consts": {"KeepResyncOnAccept": "TRUE"},
+         "trace_invariants": ["SlotsOk", "NoResyncLost"], "tv_timeout": 3000, "timeout": 7200, "tiers": ("thorough",)},
     ],
 }
 
@@ -588,12 +594,11 @@ EXTRA["X03"] = {
 }
 
 
-def _repo_test_traces(wdir, tier, seed, trace_path):
-    """Run the repository's own test suite with hook H9 recording the store actors, and turn the per-process
-    files into one ndjson trace: one run per (process, actor thread, document)."""
-    import glob as _glob, subprocess as _sp, collections as _c, os, re, json
+def _run_repo_tests(raw):
+    """The repository's own test suite, built with the feature verif into a separate target directory, with the
+    hook sinks (H9 store actor, H10 sync slots) writing into `raw`.  Returns (tests run, tests passed)."""
+    import subprocess as _sp, os, re
     repo = os.environ.get("VERIF_REPO", "/repo")
-    raw = os.path.join(wdir, "x04raw")
     os.makedirs(raw, exist_ok=True)
     env = dict(os.environ, IROH_DOCS_VERIF_TRACE=raw, CARGO_TARGET_DIR=os.path.join(_v.WORK, "target-repotests"),
                CARGO_INCREMENTAL="0", CARGO_NET_OFFLINE="true")
@@ -603,6 +608,15 @@ def _repo_test_traces(wdir, tier, seed, trace_path):
     m = re.search(r"(\d+) tests run: (\d+) passed", p.stdout + p.stderr)
     if not m:
         raise _v.ToolError("the repository's test suite did not run (feature verif):\n" + tail)
+    return int(m.group(1)), int(m.group(2))
+
+
+def _repo_test_traces(wdir, tier, seed, trace_path):
+    """Run the repository's own test suite with hook H9 recording the store actors, and turn the per-process
+    files into one ndjson trace: one run per (process, actor thread, document)."""
+    import glob as _glob, collections as _c, os, json
+    raw = os.path.join(wdir, "x04raw")
+    ran, passed = _run_repo_tests(raw)
     runs = _c.defaultdict(list)
     for f in sorted(_glob.glob(raw + "/*.ndjson")):
         for line in open(f):
@@ -619,7 +633,7 @@ def _repo_test_traces(wdir, tier, seed, trace_path):
                 out.write(json.dumps({"ev": "Act", "op": e["op"], "sync": e["sync"], "sub": e["sub"], "pre": e["pre"], "post": e["post"]},
                                      separators=(",", ":")) + "\n")
                 n += 1
-    summ = {"histories": len(runs), "trace_lines": n + len(runs), "tests_run": int(m.group(1)), "tests_passed": int(m.group(2)),
+    summ = {"histories": len(runs), "trace_lines": n + len(runs), "tests_run": ran, "tests_passed": passed,
             "processes_with_actors": len({k[0] for k in runs})}
     json.dump(summ, open(trace_path[:-len(".ndjson")] + ".summary.json", "w"))
     return summ
@@ -639,5 +653,114 @@ EXTRA["X04"] = {
     "drives": [
         {"name": "repotests", "custom": _repo_test_traces, "cmd": "-", "args": {},
          "trace_module": "ActorStateTrace", "trace_consts": {}, "tv_timeout": 3000, "timeout": 7200},
+    ],
+}
+
+
+def _live_slot_records(files, seed, out, first_run=0, source=""):
+    """Turn the H10 lines of some processes into runs: one per per-document state of one live actor (inst > 0), plus one
+    per process for the calls on documents that are not in the sync set (inst = 0).  An exit line is attached to the
+    entry line it names (`of`), so one record = one call."""
+    import json, collections as _c, os
+    nruns = nlines = 0
+    tally = _c.Counter()
+    for f in files:
+        enters, exits = [], {}
+        for line in open(f):
+            line = line.strip()
+            if not line:
+                continue
+            e = json.loads(line)
+            if e["k"] == "enter":
+                enters.append(e)
+            else:
+                exits[e["of"]] = e
+        groups = _c.defaultdict(list)
+        for e in sorted(enters, key=lambda e: e["seq"]):
+            groups[e["inst"]].append(e)
+        for inst, evs in sorted(groups.items()):
+            ranks = {}
+            out.write(json.dumps({"ev": "Reset", "run": first_run + nruns, "seed": seed, "ops": [], "inst": inst,
+                                  "proc": os.path.basename(f), "source": source}, separators=(",", ":")) + "\n")
+            nruns += 1
+            nlines += 1
+            for e in evs:
+                x = exits.get(e["seq"])
+                p = ranks.setdefault(e["peer"], len(ranks) + 1) if e["peer"] else 0
+                if e["fn"] == "insert":
+                    rec = {"ev": "Insert", "inst": inst, "fresh": e["fresh"]}
+                elif e["fn"] == "remove":
+                    rec = {"ev": "Remove", "inst": inst}
+                else:
+                    ret = ""
+                    if x is not None:
+                        r = x["ret"]
+                        if e["fn"] == "finish":
+                            ret = ("started" if r[0] else "idle") + ("+resync" if r[1] else "")
+                        elif isinstance(r, bool):
+                            ret = "true" if r else "false"
+                        else:
+                            ret = str(r)
+                    rec = {"ev": "Call", "fn": e["fn"], "inst": inst, "p": p, "known": e["pre"] is not None,
+                           "pre": e["pre"] if e["pre"] is not None else [0, False], "reason": e.get("reason", ""),
+                           "yld": bool(e.get("yield", False)), "origin": e.get("origin", ""), "exited": x is not None, "ret": ret,
+                           "post": (x["post"] if x is not None and x["post"] is not None else [0, False])}
+                    tally[(e["fn"], rec["pre"][0] if rec["known"] else -1, ret)] += 1
+                out.write(json.dumps(rec, separators=(",", ":")) + "\n")
+                nlines += 1
+    return nruns, nlines, tally
+
+
+def _live_slot_traces(wdir, tier, seed, trace_path, optional=False, n=None):
+    """X05: complete nodes on the loopback network (vdrive nodes) and, in the thorough tier, the repository's own test
+    suite, with hook H10 recording every call of the sync-slot transition functions of engine/state.rs."""
+    import glob as _glob, os, json, subprocess as _sp
+    raw = os.path.join(wdir, "x05raw")
+    os.makedirs(raw, exist_ok=True)
+    n = n or {"quick": 30, "thorough": 400}[tier]
+    env = dict(os.environ, IROH_DOCS_VERIF_TRACE=raw)
+    try:
+        p = _sp.run([_v.VDRIVE, "nodes", "--seed", str(seed), "--n", str(n), "--out", os.path.join(wdir, "x05nodes.ndjson")],
+                    env=env, capture_output=True, text=True, timeout=7000)
+        failed = p.returncode != 0
+        tail = (p.stdout + p.stderr)[-2000:]
+    except Exception as e:      # noqa
+        failed, tail = True, str(e)
+    if failed and not optional:
+        raise _v.ToolError("vdrive nodes failed:\n" + tail)
+    files = sorted(_glob.glob(raw + "/*.live.jsonl"))
+    ran = passed = 0
+    with open(trace_path, "w") as out:
+        r1, l1, tally = _live_slot_records(files, seed, out, 0, "vdrive nodes")
+        r2 = l2 = 0
+        if tier == "thorough" and not optional:
+            raw2 = os.path.join(wdir, "x05raw-tests")
+            ran, passed = _run_repo_tests(raw2)
+            r2, l2, t2 = _live_slot_records(sorted(_glob.glob(raw2 + "/*.live.jsonl")), seed, out, r1, "repository tests")
+            tally.update(t2)
+    if r1 == 0 and not optional:
+        raise _v.ToolError("hook H10 recorded nothing (is the feature verif built in?)")
+    summ = {"histories": r1 + r2, "trace_lines": l1 + l2, "node_histories": n, "runs_from_nodes": r1, "runs_from_repo_tests": r2,
+            "repo_tests_run": ran, "repo_tests_passed": passed,
+            "calls_by_function_slot_result": {"%s/slot=%s/%s" % k: v for k, v in sorted(tally.items(), key=str)}}
+    json.dump(summ, open(trace_path[:-len(".ndjson")] + ".summary.json", "w"))
+    return summ
+
+
+EXTRA["X05"] = {
+    "level": "exploration",
+    "rule": "sync-slot coordination (engine/state.rs; C11's subject) on traces of COMPLETE nodes: 2-3 nodes on the loopback network "
+            "share a document and write concurrently (the X03 drive), in the thorough tier also the repository's own tests; hook H10 "
+            "logs every start_connect / accept_request / finish / connect_declined / insert / remove with the slot on entry and the "
+            "return value and slot on exit; each per-document state of each live actor is one run, validated against the node-local "
+            "rules of LiveSync.tla (no merging of logs across nodes); a case is one call",
+    "assumptions": ["node-local: the global clauses of C11 (never two sessions, exactly one of two crossing dials accepted) are decided by "
+                    "TLC on the composition (C11's model) given that every node follows the local rules, which is what is validated here",
+                    "which way a node answers a crossing dial is not prescribed, only that it always answers one peer the same way"],
+    "models": [],
+    "drives": [
+        {"name": "liveslots", "custom": _live_slot_traces, "cmd": "-", "args": {},
+         "trace_module": "LiveNodeTrace", "trace_consts": {"KeepResyncOnAccept": "TRUE"},
+         "trace_invariants": ["SlotsOk", "NoResyncLost"], "tv_timeout": 3000, "timeout": 7200},
     ],
 }
